@@ -100,12 +100,13 @@ int main(int argc, char **argv) {
     o.max_runs = strtoull(get("max-runs", "0").c_str(), nullptr, 0);
     o.sample_mod = strtoull(get("sample-mod", "1").c_str(), nullptr, 0);
     o.hashlog = get("hashlog", "0") != "0";
+    o.max_deaths = strtoull(get("max-deaths", "0").c_str(), nullptr, 0);
     if (cmd == "batch") return sim::ChanBatch(o);
     if (cmd == "exec")
       return sim::ChanExec(get("plans", ""), get("out", "/dev/stdout"), o.repo,
                            atoi(get("workers", "1").c_str()), o.log_dir);
     if (cmd == "planof")
-      return sim::ChanPlanOf(o, strtoull(get("idx", "0").c_str(), nullptr, 0));
+      return sim::ChanPlanOf(o, get("idx", "0"));
   }
 #ifdef SIM_HAVE_PRIM
   if (engine == "prim") return PrimMain(a, cmd);
